@@ -124,52 +124,74 @@ def make_state(M, sched, mode, z=0):
         snp = _snp(ctx)
         Ls, ns = _inputs(ctx, M, sched, z)
         exp_args = []
+        local_args = []
+
+        def hook(a):
+            exp_args.append(a)
+            # exp calls made by the quadrature itself (not the information estimate) must be "local":
+            import sys
+            f = sys._getframe(1)
+            names = set()
+            while f is not None:
+                names.add(f.f_code.co_name)
+                f = f.f_back
+            if names & {"log_integrate_log_trap", "logsubexp", "compute_weights", "get_logx_live_points"}:
+                local_args.append(a)
         X, L, rect, trap = _reference(ctx, Ls, ns, mode)
+        import contextlib
+        rec = contextlib.nullcontext()
         if ctx.mode == "sym":
-            _symnp.HOOKS["exp"] = exp_args.append
+            _symnp.HOOKS["exp"] = hook
+        else:
+            import nessai.evidence as _ev
+            import nessai.posterior as _po
+            rec = _symnp.recording([_ev, _po], {"exp": hook})
         try:
-            st = _NSIntegralState(ns[0], track_gradients=False, expectation=mode)
-            for i in range(M):
-                st.increment(Ls[i], nlive=None if sched == "const" else ns[i])
-                part = 0.0
-                for j in range(i + 1):
-                    part = part + L[j] * (X[j] - X[j + 1])
-                if mut == "rect" and i == M - 1:
-                    part = part + L[0] * X[1]
-                _log_eq_plain(ctx, st.logZ, part, "O1 incremental logZ = log sum L_i (X_{i-1} - X_i)")
-            ctx.prove(len(st.log_vols) == M + 1 and len(st.logLs) == M + 1, "one volume/likelihood entry per increment")
-            ctx.prove_eq(st.log_vols[0], 0.0, "O4 log-volumes start at 0")
-            ctx.prove(_conj([st.log_vols[i + 1] < st.log_vols[i] for i in range(M)]), "O4 log-volumes strictly decrease")
-            for i in range(M + 1):
-                _log_eq_plain(ctx, st.log_vols[i], X[i], "log-volume = log of the reference volume")
-            # posterior weights and final evidence
-            lpw = st.log_posterior_weights
-            logZ_f = st.finalise()
-            _log_eq_plain(ctx, logZ_f, trap, "O2 finalise() = trapezoid with closing point at X=0")
-            ctx.prove(len(lpw) == M, "one posterior weight per dead point")
-            zero_evidence = False
-            if True:
-                for i in range(M):
-                    w_ref = L[i] * (X[i] - X[i + 1]) / trap
-                    if mut == "weights" and i == 0:
-                        w_ref = L[i] * X[i] / trap
-                    _log_eq_plain(ctx, lpw[i], w_ref, "O3 posterior weight = L_i (X_{i-1}-X_i) / Z")
-            # one-pass computation from stored samples
-            from nessai.posterior import compute_weights
-            samples = np.array(Ls, dtype=object if ctx.mode == "sym" else float)
-            nl = np.array(ns, dtype=object if ctx.mode == "sym" else float)
-            logZ_c, lpw_c = compute_weights(samples, nl, expectation=mode)
-            ctx.prove_eq(logZ_c, logZ_f, "O3 compute_weights evidence = state evidence")
-            if not zero_evidence:
-                ctx.prove(_conj([lpw_c[i] == lpw[i] for i in range(M)]) if ctx.mode == "sym" else all(
-                    ctx.prove_eq(lpw_c[i], lpw[i], "O3 compute_weights weights = state weights") for i in range(M)),
-                    "O3 compute_weights weights = state weights")
-            # O7: numerical safety as path obligations
-            ctx.prove(not ctx.domain_hits, "O7 no log of a negative number / -(-inf) on any path")
-            if ctx.mode == "sym":
-                ctx.prove(_conj([a <= 0 for a in exp_args if not isinstance(a, (int, float)) or not math.isnan(a)]),
-                          "O7 every argument handed to exp is <= 0 (exp cannot overflow)")
-            ctx.cover("end")
+          with rec:
+              st = _NSIntegralState(ns[0], track_gradients=False, expectation=mode)
+              for i in range(M):
+                  st.increment(Ls[i], nlive=None if sched == "const" else ns[i])
+                  part = 0.0
+                  for j in range(i + 1):
+                      part = part + L[j] * (X[j] - X[j + 1])
+                  if mut == "rect" and i == M - 1:
+                      part = part + L[0] * X[1]
+                  _log_eq_plain(ctx, st.logZ, part, "O1 incremental logZ = log sum L_i (X_{i-1} - X_i)")
+              ctx.prove(len(st.log_vols) == M + 1 and len(st.logLs) == M + 1, "one volume/likelihood entry per increment")
+              ctx.prove_eq(st.log_vols[0], 0.0, "O4 log-volumes start at 0")
+              ctx.prove(_conj([st.log_vols[i + 1] < st.log_vols[i] for i in range(M)]), "O4 log-volumes strictly decrease")
+              for i in range(M + 1):
+                  _log_eq_plain(ctx, st.log_vols[i], X[i], "log-volume = log of the reference volume")
+              # posterior weights and final evidence
+              lpw = st.log_posterior_weights
+              logZ_f = st.finalise()
+              _log_eq_plain(ctx, logZ_f, trap, "O2 finalise() = trapezoid with closing point at X=0")
+              ctx.prove(len(lpw) == M, "one posterior weight per dead point")
+              zero_evidence = False
+              if True:
+                  for i in range(M):
+                      w_ref = L[i] * (X[i] - X[i + 1]) / trap
+                      if mut == "weights" and i == 0:
+                          w_ref = L[i] * X[i] / trap
+                      _log_eq_plain(ctx, lpw[i], w_ref, "O3 posterior weight = L_i (X_{i-1}-X_i) / Z")
+              # one-pass computation from stored samples
+              from nessai.posterior import compute_weights
+              samples = np.array(Ls, dtype=object if ctx.mode == "sym" else float)
+              nl = np.array(ns, dtype=object if ctx.mode == "sym" else float)
+              logZ_c, lpw_c = compute_weights(samples, nl, expectation=mode)
+              ctx.prove_eq(logZ_c, logZ_f, "O3 compute_weights evidence = state evidence")
+              if not zero_evidence:
+                  ctx.prove(_conj([lpw_c[i] == lpw[i] for i in range(M)]) if ctx.mode == "sym" else all(
+                      ctx.prove_eq(lpw_c[i], lpw[i], "O3 compute_weights weights = state weights") for i in range(M)),
+                      "O3 compute_weights weights = state weights")
+              # O7: numerical safety as path obligations
+              ctx.prove(not ctx.domain_hits, "O7 no log of a negative number / -(-inf) on any path")
+              if True:
+                  ctx.prove(_conj([a <= 0 for a in exp_args if not isinstance(a, (int, float)) or not math.isnan(a)]),
+                            "O7 every argument handed to exp is <= 0 (exp cannot overflow)")
+                  ctx.prove(len(local_args) > 0 and _conj([a >= -1 for a in local_args if not (isinstance(a, float) and a == -math.inf)]),
+                            "O7 the quadrature only exponentiates differences of consecutive log-volumes (>= -1): no underflow however long the run")
+              ctx.cover("end")
         finally:
             _symnp.HOOKS.pop("exp", None)
     return body
@@ -229,6 +251,51 @@ def make_int_schedule(M, k, mode):
     return body
 
 
+def make_int_array_schedule(sched, mode):
+    """compute_weights with an integer-typed array of live counts (e.g. np.array(state.nlive))."""
+    def body(ctx):
+        from nessai.posterior import compute_weights
+        M = len(sched)
+        Ls = [ctx.logval(f"L{i}", positive=True) for i in range(M)]
+        for i in range(M - 1):
+            ctx.assume(Ls[i] <= Ls[i + 1])
+        seen = []
+        real_cumsum = np.cumsum
+        if ctx.mode == "sym":
+            _symnp.HOOKS["cumsum"] = seen.append
+        else:
+            import nessai.posterior as P
+
+            class NP:
+                def __getattr__(self, name):
+                    return getattr(np, name)
+
+                def cumsum(self, x, *a, **k):
+                    seen.append(np.array(x, dtype=float))
+                    return real_cumsum(x, *a, **k)
+            old = P.np
+            P.np = NP()
+        try:
+            samples = np.array(Ls, dtype=object if ctx.mode == "sym" else float)
+            compute_weights(samples, np.array(sched, dtype=np.int64), expectation=mode)
+        finally:
+            _symnp.HOOKS.pop("cumsum", None)
+            if ctx.mode != "sym":
+                P.np = old
+        ctx.prove(len(seen) == 1 and len(seen[0]) == M, "cumsum called once on M shrinkage terms")
+        for i in range(M):
+            ref = -1.0 / sched[i] if mode == "logt" else -math.log1p(1.0 / sched[i])
+            got = seen[0][i]
+            got = float(got) if not hasattr(got, "p") else got
+            ok = (abs(got - ref) <= 1e-12) if isinstance(got, float) else None
+            if ok is None:
+                ctx.prove_eq(got, ref, "integer-typed live counts give the shrinkage -1/n_i resp. -log(1+1/n_i)")
+            else:
+                ctx.prove(ok, "integer-typed live counts give the shrinkage -1/n_i resp. -log(1+1/n_i)")
+        ctx.cover("end")
+    return body
+
+
 def make_live_logx(N, mode):
     def body(ctx):
         from nessai.evidence import _NSIntegralState
@@ -273,6 +340,8 @@ def units(tier):
         for (M, k) in ints:
             us.append(Unit(f"int_schedule[M={M},k={k},{mode}]", make_int_schedule(M, k, mode), MODS, opts, expect_cover=["end"],
                            mutants=["sched"] if (M, k) == (4, 2) else [], twin_runs=10))
+        for sched in ([3, 3, 2, 1], [5, 4], [2]):
+            us.append(Unit(f"int_array_schedule[{sched},{mode}]", make_int_array_schedule(sched, mode), MODS, opts, expect_cover=["end"], twin_runs=3))
         for N in (1, 3):
             us.append(Unit(f"live_logx[N={N},{mode}]", make_live_logx(N, mode), MODS, opts, expect_cover=["end"], twin_runs=10, witness_every=1))
     return us
